@@ -34,6 +34,10 @@ def parseOp (s : String) : Option Op :=
   | ["A"] => some .readAny
   | ["S", n] => n.toNat?.map .setChunk
   | ["Q", n] => n.toNat?.map .reqRead
+  | ["PR", n] => n.toNat?.map .pread
+  | ["PA"] => some .preadAny
+  | ["PL"] => some .preadLine
+  | ["XS"] => some .closeServer
   | _ => none
 
 def parseFraming (s : String) : Option (Framing × Nat) :=
